@@ -20,9 +20,9 @@ EXPLANATION = (
 
 
 def run(ctx: Ctx) -> None:
-    R.rule_gates(ctx)
-    R.rule_sib_hp(ctx)
-    R.rule_own_steps(ctx)
-    R.rule_damparg(ctx, [f'{R.BP}.step', f'{R.BP}.load_state_dict', 'gpt_neox.preconditioner.GPTNeoXKFACPreconditioner.load_state_dict',
+    ctx.do(R.rule_gates)
+    ctx.do(R.rule_sib_hp)
+    ctx.do(R.rule_own_steps)
+    ctx.do(R.rule_damparg, [f'{R.BP}.step', f'{R.BP}.load_state_dict', 'gpt_neox.preconditioner.GPTNeoXKFACPreconditioner.load_state_dict',
                          'gpt_neox.preconditioner.GPTNeoXKFACPreconditioner.load_factors_from_dir'])
-    R.rule_own_so(ctx)
+    ctx.do(R.rule_own_so)
